@@ -51,6 +51,7 @@ func genHistory(t *rapid.T) *Case {
 		}
 		c.Pool = append(c.Pool, pc)
 	}
+	c.Scrib = rapid.IntRange(0, 1).Draw(t, "startbuilt")
 	n := rapid.IntRange(1, 6).Draw(t, "nhist")
 	ops := []string{"unmarshal", "unmarshal", "unmarshal", "proto", "reset", "trunc", "badver"}
 	for i := 0; i < n; i++ {
